@@ -130,7 +130,12 @@ func startDriver(path string, res *Result) (*driver, error) {
 			if p.op == "case" {
 				poisoned = false
 			}
-			if lean != p.goOut && !poisoned {
+			isSpec := strings.HasPrefix(p.op, "sq spec") || strings.HasPrefix(p.op, "spec ")
+			if lean != p.goOut && isSpec {
+				// Spec operations carry all their inputs: they are compared even after an earlier
+				// difference in the same case, and they do not poison it
+				d.onMismatch(p, lean)
+			} else if lean != p.goOut && !poisoned {
 				// later ops of this case depend on the state this op left behind: do not compare them
 				poisoned = true
 				d.onMismatch(p, lean)
